@@ -1,6 +1,7 @@
 (* C19 - executable model of the help / default-command-line output of Potassco::ProgramOptions
    (src/program_options.cpp: Option::maxColumn, DefaultFormat::format x3, OptionGroup::format/maxColumn,
-    OptionContext::description/defaults/setActiveDescLevel, Value::arg/implicit/defaultsTo) and of the part of
+    OptionContext::add(const OptionGroup&) [merge by caption, level = min], description/defaults/setActiveDescLevel,
+    Value::arg/implicit/defaultsTo) and of the part of
    parseCommandString that reads the default command line back (CommandStringParser::next, handleLongOpt,
    OptionContext::findImpl for long names).
 
@@ -303,9 +304,27 @@ Fixpoint parse_toks (os : list vopt) (keys : list (str * nat)) (toks : list str)
       end
   end.
 
-Definition parse_cmd (ctx : list group) (cmd : str) : pres :=
-  let os := all_opts ctx in
+(* parseCommandString against a context whose options_ vector (registration order) is os *)
+Definition parse_cmd_os (os : list vopt) (cmd : str) : pres :=
   parse_toks os (keys_from 0 os) (tokens (S (length cmd)) cmd) [].
+Definition parse_cmd (ctx : list group) (cmd : str) : pres := parse_cmd_os (all_opts ctx) cmd.
+
+(* ---------------- OptionContext::add(const OptionGroup&) ----------------
+   findGroupKey(caption): the first group with this caption (std::string ==).  None: push_back(OptionGroup(caption, level)),
+   then the options are appended one by one (insertOption; every add of the model succeeds, refused adds are the
+   harness's business) and finally  groups_[k].setDescriptionLevel(std::min(options.descLevel(), groups_[k].descLevel())).
+   groups_ keeps the order of the first add of each caption; options_ (the registration order, used by the index)
+   is the concatenation of the groups as they were handed to add.                                                  *)
+Fixpoint add_group (g : group) (ctx : list group) : list group :=
+  match ctx with
+  | [] => [mkG (g_caption g) (Z.min (g_level g) (g_level g)) (g_opts g)]
+  | h :: r =>
+      if str_eqb (g_caption h) (g_caption g)
+      then mkG (g_caption h) (Z.min (g_level g) (g_level h)) (g_opts h ++ g_opts g) :: r
+      else h :: add_group g r
+  end.
+Definition build_ctx (pieces : list group) : list group := fold_left (fun c g => add_group g c) pieces [].
+Definition registered (pieces : list group) : list vopt := flat_map g_opts pieces.
 
 (* ---------------- case decoding and observation ---------------- *)
 Definition take_str (l : list Z) : str * list Z :=
@@ -364,11 +383,13 @@ Definition obs_parse (p : pres) : list Z :=
 Definition run_case (c : list Z) : list Z :=
   match c with
   | active :: n :: ng :: r =>
-      let ctx := dec_groups (Z.to_nat ng) r in
+      let pieces := dec_groups (Z.to_nat ng) r in      (* the OptionGroups in the order they are handed to add *)
+      let ctx := build_ctx pieces in
+      let os := registered pieces in
       let dl := active_level active in
       let '(d, f) := description dl ctx in
       let defs := defaults dl n ctx in
-      flat_map (fun o => obs_str (v_name o) ++ [v_alias o; v_level o; b2z (v_neg o)]) (all_opts ctx)
-      ++ obs_str d ++ [b2z f] ++ obs_str defs ++ obs_parse (parse_cmd ctx defs)
+      flat_map (fun o => obs_str (v_name o) ++ [v_alias o; v_level o; b2z (v_neg o)]) os
+      ++ obs_str d ++ [b2z f] ++ obs_str defs ++ obs_parse (parse_cmd_os os defs)
   | _ => []
   end.
